@@ -207,6 +207,21 @@ def _make_chunks(D, seed):
       chunks[mem[p:p + sz]] = cid
       cid += 1
       p += sz
+  how = D.desc.get("chunk_ids")
+  if how and cid:
+    # chunklet ids are arbitrary non-negative integers (one-based, gaps, any order)
+    r2 = np_stream(seed, "chunk-ids")
+    new = np.arange(cid)
+    if how == "onebased":
+      new = new + 1
+    elif how in ("gaps", "gaps_shuffled"):
+      new = np.cumsum(r2.randint(1, 4, size=cid))
+    if how in ("shuffled", "gaps_shuffled"):
+      new = r2.permutation(new)
+    out = chunks.copy()
+    for a in range(cid):
+      out[chunks == a] = new[a]
+    chunks = out
   D.chunks = chunks
   D.n_chunks = cid
 
